@@ -192,7 +192,7 @@ theorem derivePublic_eq (F : CurveFacts X) (priv : Bytes) :
     obtain ⟨P, hP, hrep⟩ := F.baseMult priv (by omega)
     rw [hP]
     simp only [Outcome.bind_ok]
-    rw [F.bytesUnsafe P _ hrep]
+    rw [F.bytesSafe P _ hrep]
     cases hQ : Spec.SM2.smul (Bytes.toNatBE priv) Spec.SM2.G with
     | none => simp [Spec.SM2.pointBytes]
     | some q =>
